@@ -1,6 +1,6 @@
 (* EsSemProofs.v — lemmas relating the Elasticsearch query builder model (EsBuild.v) to the reference
    semantics (EsSem.v).  Used by props/C05.v. *)
-Require Import Base Decimal Tree GenTree GenVisitors GenChars Visitor Json EsSpecs EsCheck EsBuild EsSpec
+Require Import Base Decimal Tree GenTree GenVisitors GenChars GenEs Visitor Json EsSpecs EsCheck EsBuild EsSpec
                EsSem TreeInd EsProofs.
 From Coq Require Import Lia.
 
@@ -489,3 +489,599 @@ Section ReadJson.
     egood e = true -> ejson cfg e = ROk j -> es_eval np j lvl d = eeval cfg np e lvl d.
   Proof. intros Hg Hj. exact (proj1 (read_json e) j lvl d Hg Hj). Qed.
 End ReadJson.
+
+(* ================================================================ C. configurations without nested fields *)
+Lemma longest_nested_nil f k : longest_nested [] f k = [].
+Proof. induction k as [|k IH]; simpl; [reflexivity|exact IH]. Qed.
+
+Lemma level_of_nil f : level_of [] f = [].
+Proof. apply longest_nested_nil. Qed.
+
+Lemma clause_holds_nil j d : clause_holds [] j [] d = truth d (norm_clause j).
+Proof. unfold clause_holds. destruct (clause_field j); [rewrite level_of_nil|]; reflexivity. Qed.
+
+Lemma try_prefixes_nil pre names k : try_prefixes [] pre names k = None.
+Proof. induction k as [|k IH]; simpl; [reflexivity|exact IH]. Qed.
+
+Lemma cls_eqb_eq a b : cls_eqb a b = true -> a = b.
+Proof. destruct a, b; simpl; intros H; try discriminate; reflexivity. Qed.
+
+Lemma bool_matches_must m : bool_matches m [] [] = forallb id m.
+Proof. unfold bool_matches. simpl. rewrite !andb_true_r. reflexivity. Qed.
+Lemma bool_matches_must_not n : bool_matches [] [] n = negb (existsb id n).
+Proof. unfold bool_matches. simpl. rewrite andb_true_r. reflexivity. Qed.
+Lemma bool_matches_should s : s <> [] -> bool_matches [] s [] = existsb id s.
+Proof. unfold bool_matches. destruct s; [congruence|]. reflexivity. Qed.
+
+Lemma forallb_id_map {A} (f : A -> bool) l : forallb id (map f l) = forallb f l.
+Proof. induction l as [|x l IH]; simpl; [reflexivity|]. rewrite IH. reflexivity. Qed.
+Lemma existsb_id_map {A} (f : A -> bool) l : existsb id (map f l) = existsb f l.
+Proof. induction l as [|x l IH]; simpl; [reflexivity|]. rewrite IH. reflexivity. Qed.
+
+Definition noname (cx : ectx) : ectx := mkECtx (x_prefix cx) (x_analyzed cx) None.
+Lemma noname_propagate t cx : noname (propagate_name t cx) = noname cx.
+Proof. unfold propagate_name. destruct (name_of t) as [n|]; [destruct (nonempty n)|]; reflexivity. Qed.
+
+Definition fsim (F G : leaf -> leaf) : Prop := forall l l', leaf_sim l l' -> leaf_sim (F l) (G l').
+
+Definition ekind (e : eitem) : ikind :=
+  match e with EOp EKMust _ => IMust | EOp EKMustNot _ => IMustNot | _ => IOther end.
+Definition enonempty (e : eitem) : bool := match e with EOp _ [] => false | _ => true end.
+
+Lemma ekind_on_leaf g e : ekind (on_leaf g e) = ekind e.
+Proof. destruct e; reflexivity. Qed.
+Lemma enonempty_on_leaf g e : enonempty (on_leaf g e) = enonempty e.
+Proof. destruct e; reflexivity. Qed.
+Lemma on_leaf_comp f g e : on_leaf f (on_leaf g e) = on_leaf (fun l => f (g l)) e.
+Proof. destruct e; reflexivity. Qed.
+
+Lemma sim_boost d l : leaf_sim (leaf_set_boost d l) l.
+Proof. repeat split. Qed.
+Lemma sim_ztq z l : leaf_sim (leaf_set_ztq z l) l.
+Proof. repeat split. Qed.
+Lemma sim_fuzz d l l' : leaf_sim l l' -> leaf_sim (leaf_set_fuzziness d l) (leaf_set_fuzziness d l').
+Proof. intros (H1&H2&H3&H4&H5&H6&H7&H8). repeat split; simpl; assumption. Qed.
+Lemma sim_slop d l l' : leaf_sim l l' -> leaf_sim (leaf_set_slop d l) (leaf_set_slop d l').
+Proof. intros (H1&H2&H3&H4&H5&H6&H7&H8). repeat split; simpl; try assumption. rewrite H1, H8. reflexivity. Qed.
+Lemma sim_mod m l l' : leaf_sim l l' -> leaf_sim (apply_mod m l) (apply_mod m l').
+Proof. destruct m; [apply sim_fuzz|apply sim_slop]. Qed.
+Lemma sim_mods ms l l' : leaf_sim l l' -> leaf_sim (apply_mods ms l) (apply_mods ms l').
+Proof. intros H. induction ms as [|m ms IH]; simpl; [exact H|apply sim_mod; exact IH]. Qed.
+Lemma apply_mods_snoc ms m l : apply_mods (ms ++ [m]) l = apply_mods ms (apply_mod m l).
+Proof. unfold apply_mods. rewrite fold_right_app. reflexivity. Qed.
+
+Lemma good_boost d l : good_leaf (leaf_set_boost d l) = good_leaf l. Proof. reflexivity. Qed.
+Lemma good_slop d l : good_leaf (leaf_set_slop d l) = good_leaf l. Proof. reflexivity. Qed.
+Lemma good_ztq z l : good_leaf (leaf_set_ztq z l) = good_leaf l. Proof. reflexivity. Qed.
+Lemma good_fuzz d l : good_leaf (leaf_set_fuzziness d l) = true. Proof. reflexivity. Qed.
+
+Lemma egood_on_leaf g e : (forall l, good_leaf l = true -> good_leaf (g l) = true) ->
+  egood e = true -> egood (on_leaf g e) = true.
+Proof. intros Hg. destruct e; simpl; auto. Qed.
+
+Definition conj_like (cfg : es_config) (t : item) : bool :=
+  match t with
+  | Op KAnd _ _ | Unary KPlus _ _ => true
+  | Op KUnknown _ _ => match c_default_operator cfg with DShould => false | _ => true end
+  | _ => false
+  end.
+Definition disj_like (cfg : es_config) (t : item) : bool :=
+  match t with
+  | Op KOr _ _ => true
+  | Op KUnknown _ _ => match c_default_operator cfg with DShould => true | _ => false end
+  | _ => false
+  end.
+
+Section Main.
+  Variable cfg : es_config.
+  Variable d : doc.
+  Hypothesis Hnp : ev_nested_prefixes (mk_env cfg) = [].
+  Hypothesis Hwf : wf_config cfg = true.
+  Let env := mk_env cfg.
+
+  Lemma split_nested_none n cx : split_nested env n cx = None.
+  Proof. unfold split_nested, env. rewrite Hnp. apply try_prefixes_nil. Qed.
+
+  Definition ev (e : eitem) : bool := eeval cfg [] e [] d.
+  Definition EV (F : leaf -> leaf) (e : eitem) : bool := ev (on_leaf F e).
+  Definition D (t : item) (cx : ectx) (ms : list lmod) : bool := den_at cfg [] t (noname cx) ms [] d.
+
+  Lemma ev_leaf l :
+    ev (ELeaf l) = match onorm (leaf_json cfg l) with Some a => truth d a | None => false end.
+  Proof. unfold ev. simpl. destruct (leaf_json cfg l); [apply clause_holds_nil|reflexivity]. Qed.
+
+  Lemma ev_leaf_sim l l' : leaf_sim l l' -> ev (ELeaf l) = ev (ELeaf l').
+  Proof. intros H. rewrite !ev_leaf, (leaf_json_sim cfg l l' H). reflexivity. Qed.
+
+  Lemma term_holds_nil cx ms t :
+    term_holds cfg [] cx ms t [] d =
+    match term_atom cfg cx ms t with Some a => truth d a | None => false end.
+  Proof.
+    unfold term_holds. destruct (term_atom cfg cx ms t); [|reflexivity].
+    rewrite level_of_nil. simpl. apply orb_false_r.
+  Qed.
+
+  (* a term: the leaf the visitor builds against the leaf the reference names *)
+  Lemma leaf_case t cx ms F l0 l0' :
+    term_leaf cfg (noname cx) t = Some l0' -> leaf_sim l0 l0' -> fsim F (apply_mods ms) ->
+    EV F (ELeaf l0) = term_holds cfg [] (noname cx) ms t [] d.
+  Proof.
+    intros Ht Hs HF. unfold EV. simpl on_leaf. rewrite term_holds_nil. unfold term_atom. rewrite Ht.
+    rewrite (ev_leaf_sim _ _ (HF _ _ Hs)), ev_leaf. unfold onorm.
+    destruct (leaf_json cfg (apply_mods ms l0')); reflexivity.
+  Qed.
+
+  (* the conclusions *)
+  Definition NF (t : item) (cx : ectx) (items : list eitem) : Prop :=
+    exists e, items = [e] /\ egood e = true /\ enonempty e = true /\ ekind e = item_kind cfg t /\
+              forall ms F, fsim F (apply_mods ms) -> EV F e = D t cx ms.
+  Definition FL (t : item) (cx : ectx) (items : list eitem) : Prop :=
+    forallb egood items = true /\ items <> [] /\
+    forall F, fsim F (fun l => l) ->
+      (conj_like cfg t = true -> forallb (EV F) items = D t cx []) /\
+      (disj_like cfg t = true -> existsb (EV F) items = D t cx []).
+  Definition SV (t : item) : Prop :=
+    supported t = true -> bool_operands_plain cfg t = true ->
+    (forall cx items, visit cfg env t None cx = ROk items -> NF t cx items) /\
+    (forall cx items, conj_like cfg t || disj_like cfg t = true ->
+       walk (visit cfg env) (Some (cls_of t)) cx (children t) = ROk items -> FL t cx items).
+
+  Lemma visit_par t par cx :
+    visit cfg env t par cx =
+    match par with
+    | None => visit cfg env t None cx
+    | Some p =>
+        if cls_eqb (cls_of t) p then walk (visit cfg env) (Some p) cx (children t)
+        else if mixes cfg p (cls_of t)
+             then (if Nat.ltb (length (children t)) 2 then RExc (XOther KIndexError) else RExc XMix)
+             else visit cfg env t None cx
+    end.
+  Proof. rewrite !visit_unfold. unfold visit_via. destruct par; reflexivity. Qed.
+
+  Lemma walk_cons f par cx c l :
+    walk f par cx (c :: l) =
+    match f c par cx with
+    | RExc e => RExc e
+    | ROk its => match walk f par cx l with RExc e => RExc e | ROk its' => ROk (its ++ its') end
+    end.
+  Proof. reflexivity. Qed.
+
+  Lemma on_leaf_id e : on_leaf (fun l => l) e = e.
+  Proof. destruct e; reflexivity. Qed.
+
+  Definition SVH (c : item) : Prop := SV c /\ supported c = true /\ bool_operands_plain cfg c = true.
+
+  (* the operands of an operation of class p, visited one after the other *)
+  Lemma walk_ops p cx l : forall items,
+    Forall SVH l ->
+    (forall c, In c l -> cls_eqb (cls_of c) p = true -> conj_like cfg c || disj_like cfg c = true) ->
+    walk (visit cfg env) (Some p) cx l = ROk items ->
+    exists parts, items = concat parts /\
+      Forall2 (fun c its => if cls_eqb (cls_of c) p then FL c cx its else NF c cx its) l parts.
+  Proof.
+    induction l as [|c l IH]; intros items HS Hcl Hw.
+    - simpl in Hw. inversion Hw. exists []. split; constructor.
+    - rewrite walk_cons in Hw. destruct (visit cfg env c (Some p) cx) as [its|] eqn:Hc; [|discriminate].
+      destruct (walk (visit cfg env) (Some p) cx l) as [its'|] eqn:Hw'; [|discriminate].
+      inversion Hw; subst items. inversion HS as [|? ? (HSc & Hsc & Hbc) HS']; subst.
+      destruct (IH its' HS' (fun c' Hin => Hcl c' (or_intror Hin)) eq_refl) as [parts [Hp HF]].
+      exists (its :: parts). split; [simpl; rewrite Hp; reflexivity|]. constructor; [|exact HF].
+      rewrite visit_par in Hc. destruct (cls_eqb (cls_of c) p) eqn:He.
+      + apply cls_eqb_eq in He as He'. subst p.
+        apply (proj2 (HSc Hsc Hbc)); [apply Hcl; [left; reflexivity|exact He]|exact Hc].
+      + destruct (mixes cfg p (cls_of c)); [destruct (Nat.ltb (length (children c)) 2); discriminate|].
+        apply (proj1 (HSc Hsc Hbc)). exact Hc.
+  Qed.
+
+  Lemma parts_good p cx l parts :
+    Forall2 (fun c its => if cls_eqb (cls_of c) p then FL c cx its else NF c cx its) l parts ->
+    forallb egood (concat parts) = true /\ (l <> [] -> concat parts <> []).
+  Proof.
+    induction 1 as [|c its l parts Hc _ [IH1 IH2]]; [split; [reflexivity|congruence]|].
+    simpl. rewrite forallb_app, IH1, andb_true_r.
+    destruct (cls_eqb (cls_of c) p).
+    - destruct Hc as (Hg & Hn & _). split; [exact Hg|]. intros _ Habs. apply app_eq_nil in Habs. tauto.
+    - destruct Hc as (e & -> & Hg & _). split; [simpl; rewrite Hg; reflexivity|discriminate].
+  Qed.
+
+  Lemma parts_conj p cx l parts F :
+    fsim F (fun l => l) ->
+    Forall2 (fun c its => if cls_eqb (cls_of c) p then FL c cx its else NF c cx its) l parts ->
+    (forall c, In c l -> cls_eqb (cls_of c) p = true -> conj_like cfg c = true) ->
+    forallb (EV F) (concat parts) = forallb (fun c => D c cx []) l.
+  Proof.
+    intros HF H. induction H as [|c its l parts Hc _ IH]; intros Hcl; [reflexivity|].
+    simpl. rewrite forallb_app, IH by (intros c' Hin; apply Hcl; right; exact Hin). f_equal.
+    destruct (cls_eqb (cls_of c) p) eqn:He.
+    - destruct Hc as (_ & _ & Hc). apply (proj1 (Hc F HF)). apply Hcl; [left; reflexivity|exact He].
+    - destruct Hc as (e & -> & _ & _ & _ & Hc). simpl. rewrite andb_true_r. apply (Hc [] F HF).
+  Qed.
+
+  Lemma parts_disj p cx l parts F :
+    fsim F (fun l => l) ->
+    Forall2 (fun c its => if cls_eqb (cls_of c) p then FL c cx its else NF c cx its) l parts ->
+    (forall c, In c l -> cls_eqb (cls_of c) p = true -> disj_like cfg c = true) ->
+    existsb (EV F) (concat parts) = existsb (fun c => D c cx []) l.
+  Proof.
+    intros HF H. induction H as [|c its l parts Hc _ IH]; intros Hcl; [reflexivity|].
+    simpl. rewrite existsb_app, IH by (intros c' Hin; apply Hcl; right; exact Hin). f_equal.
+    destruct (cls_eqb (cls_of c) p) eqn:He.
+    - destruct Hc as (_ & _ & Hc). apply (proj2 (Hc F HF)). apply Hcl; [left; reflexivity|exact He].
+    - destruct Hc as (e & -> & _ & _ & _ & Hc). simpl. rewrite orb_false_r. apply (Hc [] F HF).
+  Qed.
+
+  Lemma same_class_like t c :
+    cls_eqb (cls_of c) (cls_of t) = true ->
+    conj_like cfg c = conj_like cfg t /\ disj_like cfg c = disj_like cfg t.
+  Proof.
+    destruct t as [[]| |[]| | | | |[]|[]|[]|], c as [[]| |[]| | | | |[]|[]|[]|]; simpl; intros H;
+      try discriminate; split; reflexivity.
+  Qed.
+
+  Lemma bop_children t :
+    bool_operands_plain cfg t = true ->
+    Forall (fun c => bool_operands_plain cfg c = true) (children t).
+  Proof.
+    destruct t; simpl; intros H; repeat constructor; try exact H;
+      try (apply andb_prop in H as [H1 H2]; assumption).
+    apply andb_prop in H as [H _]. apply Forall_forall. intros c Hc.
+    rewrite forallb_forall in H. apply H. exact Hc.
+  Qed.
+
+  Lemma fsim_id_ztq z : fsim (leaf_set_ztq z) (fun l => l).
+  Proof. intros l l' H. eapply leaf_sim_trans; [apply sim_ztq|exact H]. Qed.
+  Lemma fsim_id_id : fsim (fun l => l) (fun l => l).
+  Proof. intros l l' H. exact H. Qed.
+
+  Lemma egood_map_ztq z its :
+    forallb egood its = true -> forallb egood (map (on_leaf (leaf_set_ztq z)) its) = true.
+  Proof.
+    induction its as [|e its IH]; simpl; [reflexivity|]. intros H. apply andb_prop in H as [H1 H2].
+    rewrite IH by exact H2. rewrite egood_on_leaf; [reflexivity| |exact H1].
+    intros l Hl. rewrite good_ztq. exact Hl.
+  Qed.
+
+  (* ---- the Lucene boolean query *)
+  Definition opt (c : item) : bool := negb (is_unary c).
+
+  Lemma operand_other c :
+    is_unary c = false -> bool_operand_ok cfg c = true -> item_kind cfg c = IOther.
+  Proof.
+    destruct c as [| | | | | | |k ? ?| | |]; simpl; intros Hu Hok; try discriminate; try reflexivity;
+      try (destruct (item_kind cfg _); try discriminate; reflexivity).
+    destruct k; try discriminate; try reflexivity.
+    simpl in Hok. destruct (c_default_operator cfg); try discriminate; reflexivity.
+  Qed.
+
+  Lemma eparts_cons (e : eitem) l :
+    eparts ev (e :: l) =
+    let '(m2, s2, n2) := eparts ev l in
+    match e with
+    | EOp EKMust sub => (map ev sub ++ m2, s2, n2)
+    | EOp EKMustNot sub => (m2, s2, map ev sub ++ n2)
+    | _ => (m2, ev e :: s2, n2)
+    end.
+  Proof. reflexivity. Qed.
+
+  Lemma bool_sem cx ops parts :
+    Forall2 (fun c its => NF c cx its) ops parts ->
+    forallb (bool_operand_ok cfg) ops = true ->
+    let sub := fun c => D c cx [] in
+    let '(m, s, n) := eparts ev (concat parts) in
+    forallb id m && negb (existsb id n) = forallb (fun c => negb (is_unary c) || sub c) ops /\
+    match m with [] => false | _ => true end = existsb is_plus ops /\
+    match s with [] => false | _ => true end = existsb opt ops /\
+    existsb id s = existsb (fun c => opt c && sub c) ops.
+  Proof.
+    induction 1 as [|c its ops parts Hc _ IH]; intros Hok; [simpl; auto|].
+    simpl in Hok. apply andb_prop in Hok as [Hokc Hok]. specialize (IH Hok).
+    destruct Hc as (e & -> & _ & Hne & Hk & Hev). simpl concat. rewrite eparts_cons.
+    destruct (eparts ev (concat parts)) as [[m2 s2] n2]. destruct IH as (I1 & I2 & I3 & I4).
+    pose proof (Hev [] (fun l => l) fsim_id_id) as Hv. unfold EV in Hv. rewrite on_leaf_id in Hv.
+    cbn [forallb existsb]. unfold opt at 1 3.
+    destruct (is_unary c) eqn:Hu.
+    - destruct c as [| | | | | | | |uk um ua| |]; try discriminate Hu. destruct uk.
+      + (* +a *) simpl in Hk. destruct e as [l|p nm it|[] sub']; try discriminate Hk.
+        unfold ev in Hv. simpl in Hv. rewrite bool_matches_must in Hv. fold ev in Hv.
+        cbn [is_plus negb orb andb]. rewrite forallb_app, <- Hv, <- andb_assoc, I1.
+        repeat split; try assumption. destruct sub'; [discriminate Hne|reflexivity].
+      + (* NOT a *) simpl in Hk. destruct e as [l|p nm it|[] sub']; try discriminate Hk.
+        unfold ev in Hv. simpl in Hv. rewrite bool_matches_must_not in Hv. fold ev in Hv.
+        cbn [is_plus negb orb andb]. rewrite existsb_app, negb_orb, <- Hv.
+        repeat split; try assumption. rewrite <- I1.
+        destruct (forallb id m2), (negb (existsb id (map ev sub'))), (negb (existsb id n2)); reflexivity.
+      + (* -a *) simpl in Hk. destruct e as [l|p nm it|[] sub']; try discriminate Hk.
+        unfold ev in Hv. simpl in Hv. rewrite bool_matches_must_not in Hv. fold ev in Hv.
+        cbn [is_plus negb orb andb]. rewrite existsb_app, negb_orb, <- Hv.
+        repeat split; try assumption. rewrite <- I1.
+        destruct (forallb id m2), (negb (existsb id (map ev sub'))), (negb (existsb id n2)); reflexivity.
+    - rewrite (operand_other c Hu Hokc) in Hk.
+      assert (Hpl : is_plus c = false) by (destruct c as [| | | | | | | |[] ? ?| |]; try reflexivity; discriminate Hu).
+      rewrite Hpl. cbn [negb orb andb].
+      destruct e as [l|p nm it|[] sub']; try discriminate Hk; cbn [existsb id]; rewrite <- Hv, I4;
+        repeat split; assumption.
+  Qed.
+
+  Lemma walk_single c cx items :
+    walk (visit cfg env) None cx [c] = ROk items -> visit cfg env c None cx = ROk items.
+  Proof.
+    rewrite walk_cons. destruct (visit cfg env c None cx) as [its|]; [|discriminate].
+    simpl. rewrite app_nil_r. auto.
+  Qed.
+
+  Lemma D_propagate t c cx ms : D c (propagate_name t cx) ms = D c cx ms.
+  Proof. unfold D. rewrite noname_propagate. reflexivity. Qed.
+
+  (* a transparent element: the item of its only child, possibly modified on a leaf *)
+  Lemma transparent_case t c cx cx' g ms' items :
+    visit cfg env c None cx' = ROk items -> NF c cx' items ->
+    item_kind cfg t = item_kind cfg c ->
+    (forall l, good_leaf l = true -> good_leaf (g l) = true) ->
+    (forall ms F, fsim F (apply_mods ms) -> fsim (fun l => F (g l)) (apply_mods (ms ++ ms'))) ->
+    (forall ms, D t cx ms = D c cx' (ms ++ ms')) ->
+    exists e, items = [e] /\ NF t cx [on_leaf g e].
+  Proof.
+    intros _ (e & -> & Hg & Hne & Hk & Hev) Hik Hgood Hsim HD. exists e. split; [reflexivity|].
+    exists (on_leaf g e). split; [reflexivity|]. split; [apply egood_on_leaf; assumption|].
+    split; [rewrite enonempty_on_leaf; exact Hne|]. split; [rewrite ekind_on_leaf, Hik; exact Hk|].
+    intros ms F HF. unfold EV. rewrite on_leaf_comp. rewrite HD.
+    apply (Hev (ms ++ ms') (fun l => F (g l))). apply Hsim. exact HF.
+  Qed.
+
+  Lemma conj_item t cx its :
+    FL t (propagate_name t cx) its -> conj_like cfg t = true -> item_kind cfg t = IMust ->
+    (forall ms, D t cx ms = D t cx []) ->
+    NF t cx [mk_op EKMust its].
+  Proof.
+    intros (Hg & Hne & HFL) Hl Hk HD. exists (mk_op EKMust its). split; [reflexivity|].
+    split; [simpl; apply egood_map_ztq; exact Hg|].
+    split; [destruct its; [congruence|reflexivity]|]. split; [rewrite Hk; reflexivity|].
+    intros ms F _. unfold EV. change (on_leaf F (mk_op EKMust its)) with (mk_op EKMust its).
+    unfold ev, mk_op. simpl eeval. rewrite bool_matches_must, map_map, forallb_id_map.
+    change (forallb (EV (leaf_set_ztq gen_EMust_zero_terms_query)) its = D t cx ms).
+    rewrite (proj1 (HFL _ (fsim_id_ztq _)) Hl), HD. unfold D. rewrite noname_propagate. reflexivity.
+  Qed.
+
+  Lemma disj_item t cx its :
+    FL t (propagate_name t cx) its -> disj_like cfg t = true -> item_kind cfg t = IOther ->
+    (forall ms, D t cx ms = D t cx []) ->
+    NF t cx [mk_op EKShould its].
+  Proof.
+    intros (Hg & Hne & HFL) Hl Hk HD. exists (mk_op EKShould its). split; [reflexivity|].
+    split; [exact Hg|]. split; [destruct its; [congruence|reflexivity]|]. split; [rewrite Hk; reflexivity|].
+    intros ms F _. unfold EV. change (on_leaf F (mk_op EKShould its)) with (EOp EKShould its).
+    unfold ev. simpl eeval. rewrite bool_matches_should by (destruct its; [congruence|discriminate]).
+    rewrite existsb_id_map.
+    transitivity (existsb (EV (fun l => l)) its).
+    { apply existsb_ext_in. intros e _. unfold EV, ev. rewrite on_leaf_id. reflexivity. }
+    rewrite (proj2 (HFL _ fsim_id_id) Hl), HD. unfold D. rewrite noname_propagate. reflexivity.
+  Qed.
+
+  Lemma neg_item t a cx e :
+    egood e = true -> item_kind cfg t = IMustNot ->
+    (forall ms F, fsim F (apply_mods ms) -> EV F e = D a (propagate_name t cx) ms) ->
+    (forall ms, D t cx ms = negb (D a cx [])) ->
+    NF t cx [mk_op EKMustNot [e]].
+  Proof.
+    intros Hg Hk Hev HD. exists (mk_op EKMustNot [e]). split; [reflexivity|].
+    split; [simpl; rewrite andb_true_r; apply egood_on_leaf; [intros l Hl; rewrite good_ztq; exact Hl|exact Hg]|].
+    split; [reflexivity|]. split; [rewrite Hk; reflexivity|].
+    intros ms F _. unfold EV. change (on_leaf F (mk_op EKMustNot [e])) with (mk_op EKMustNot [e]).
+    unfold ev, mk_op. simpl eeval. rewrite bool_matches_must_not. simpl. rewrite orb_false_r.
+    change (negb (EV (leaf_set_ztq gen_EMustNot_zero_terms_query) e) = D t cx ms).
+    rewrite (Hev [] _ (fsim_id_ztq _)), HD, D_propagate. reflexivity.
+  Qed.
+
+  Lemma forall2_nf p cx l parts :
+    (forall c, In c l -> cls_eqb (cls_of c) p = false) ->
+    Forall2 (fun c its => if cls_eqb (cls_of c) p then FL c cx its else NF c cx its) l parts ->
+    Forall2 (fun c its => NF c cx its) l parts.
+  Proof.
+    intros Hnb HF. induction HF as [|c its l parts Hc _ IH]; constructor.
+    - rewrite (Hnb c (or_introl eq_refl)) in Hc. exact Hc.
+    - apply IH. intros c' Hin. apply Hnb. right. exact Hin.
+  Qed.
+
+  Ltac ops_visit Hv Hw its :=
+    match type of Hv with
+    | context [walk ?f (Some ?p) ?cx ?l] =>
+        destruct (walk f (Some p) cx l) as [its|] eqn:Hw; [|simpl in Hv; discriminate Hv]
+    end.
+
+  Ltac child_visit Hv Hw its :=
+    match type of Hv with
+    | context [visit ?c ?e ?t None ?cx] =>
+        destruct (visit c e t None cx) as [its|] eqn:Hw;
+        [rewrite app_nil_r in Hv|simpl in Hv; discriminate Hv]
+    end.
+
+  Lemma visit_sem : forall t, SV t.
+  Proof.
+    intros t. induction t as [t IH] using item_children_ind. intros Hs Hb.
+    assert (HS : Forall SVH (children t)).
+    { pose proof (supported_children t Hs) as H1. pose proof (bop_children t Hb) as H2.
+      rewrite Forall_forall in *. intros c Hc.
+      split; [apply IH; exact Hc|split; [apply H1; exact Hc|apply H2; exact Hc]]. }
+    clear IH.
+    (* operands walked by the element's own _binary_operation *)
+    assert (Hflat : forall cx items, conj_like cfg t || disj_like cfg t = true ->
+                      walk (visit cfg env) (Some (cls_of t)) cx (children t) = ROk items -> FL t cx items).
+    { intros cx items Hlike Hw.
+      assert (Hcl : forall c, In c (children t) -> cls_eqb (cls_of c) (cls_of t) = true ->
+                              conj_like cfg c || disj_like cfg c = true).
+      { intros c _ He. destruct (same_class_like t c He) as [-> ->]. exact Hlike. }
+      destruct (walk_ops _ _ _ _ HS Hcl Hw) as [parts [-> HF]].
+      destruct (parts_good _ _ _ _ HF) as [Hg Hne].
+      split; [exact Hg|]. split.
+      { apply Hne. destruct t as [| | | | | | |k m ops|[] m a| |]; try discriminate Hlike; try discriminate.
+        apply supported_op_length in Hs. destruct ops; [simpl in Hs; lia|discriminate]. }
+      intros F HF'. split; intros Hl.
+      - rewrite (parts_conj _ _ _ _ F HF' HF).
+        + destruct t as [| | | | | | |[] m ops|[] m a| |]; try discriminate Hl; unfold D; simpl;
+            try reflexivity.
+          * simpl in Hl. destruct (c_default_operator cfg); try discriminate Hl; reflexivity.
+          * apply andb_true_r.
+        + intros c _ He. destruct (same_class_like t c He) as [-> _]. exact Hl.
+      - rewrite (parts_disj _ _ _ _ F HF' HF).
+        + destruct t as [| | | | | | |[] m ops|[] m a| |]; try discriminate Hl; unfold D; simpl;
+            try reflexivity.
+          simpl in Hl. destruct (c_default_operator cfg); try discriminate Hl; reflexivity.
+        + intros c _ He. destruct (same_class_like t c He) as [_ ->]. exact Hl. }
+    split; [|exact Hflat].
+    intros cx items Hv. rewrite visit_unfold in Hv. unfold visit_via in Hv. rewrite bhandler_cls in Hv.
+    destruct t as [[]| |[]| | | | |[]|[]|[]|]; try discriminate Hs; simpl children in *.
+    - (* Word *)
+      simpl in Hv. inversion Hv; subst items. eexists. split; [reflexivity|].
+      split; [simpl; unfold good_leaf; simpl;
+              destruct (ctx_is_analyzed cfg cx); [destruct (c_match_word_as_phrase cfg)|]; reflexivity|].
+      split; [reflexivity|]. split; [reflexivity|]. intros ms F HF. unfold D. simpl den_at.
+      eapply leaf_case; [reflexivity| |exact HF]. repeat split.
+    - (* Phrase *)
+      simpl in Hv.
+      destruct (ctx_is_analyzed cfg cx) eqn:Ha; inversion Hv; subst items;
+        (eexists; split; [reflexivity|]; split; [reflexivity|]; split; [reflexivity|];
+         split; [reflexivity|]; intros ms F HF; unfold D; simpl den_at;
+         eapply leaf_case; [simpl; change (ctx_is_analyzed cfg (noname cx)) with (ctx_is_analyzed cfg cx);
+                            rewrite Ha; reflexivity| |exact HF]; repeat split).
+    - (* SearchField *)
+      simpl in Hv.
+      set (cctx := propagate_name (SearchField m fname t) _) in Hv.
+      child_visit Hv Hw its. inversion HS as [|? ? (HSc & Hsc & Hbc) _]; subst.
+      destruct (proj1 (HSc Hsc Hbc) _ _ Hw) as (e & -> & Hg & Hne & Hk & Hev).
+      simpl in Hv. rewrite split_nested_none in Hv. inversion Hv; subst items.
+      exists e. repeat split; auto. intros ms F HF. rewrite (Hev ms F HF).
+      unfold D. simpl den_at. rewrite level_of_nil. simpl. rewrite orb_false_r.
+      unfold cctx. rewrite noname_propagate. reflexivity.
+    - (* Group *)
+      simpl in Hv. child_visit Hv Hw its. inversion Hv; subst items.
+      inversion HS as [|? ? (HSc & Hsc & Hbc) _]; subst.
+      destruct (proj1 (HSc Hsc Hbc) _ _ Hw) as (e & -> & Hg & Hne & Hk & Hev).
+      exists e. repeat split; auto. intros ms F HF. rewrite (Hev ms F HF), D_propagate. reflexivity.
+    - (* FieldGroup *)
+      simpl in Hv. child_visit Hv Hw its. inversion Hv; subst items.
+      inversion HS as [|? ? (HSc & Hsc & Hbc) _]; subst.
+      destruct (proj1 (HSc Hsc Hbc) _ _ Hw) as (e & -> & Hg & Hne & Hk & Hev).
+      exists e. repeat split; auto. intros ms F HF. rewrite (Hev ms F HF), D_propagate. reflexivity.
+    - (* Range *)
+      simpl in Hs. apply andb_prop in Hs as [Hlo Hhi].
+      destruct (range_bound_has_value _ Hlo) as [vlo Hvlo].
+      destruct (range_bound_has_value _ Hhi) as [vhi Hvhi]. simpl in Hv. rewrite Hvlo, Hvhi in Hv.
+      inversion Hv; subst items. eexists. split; [reflexivity|]. split; [reflexivity|].
+      split; [reflexivity|]. split; [reflexivity|]. intros ms F HF. unfold D. simpl den_at.
+      eapply leaf_case; [simpl; rewrite Hvlo, Hvhi; reflexivity| |exact HF]. repeat split.
+    - (* Fuzzy *)
+      simpl in Hv. child_visit Hv Hw its. inversion HS as [|? ? (HSc & Hsc & Hbc) _]; subst.
+      pose proof (proj1 (HSc Hsc Hbc) _ _ Hw) as Hnf.
+      assert (Hres : exists e, its = [e] /\ NF (Fuzzy m t deg impl) cx [on_leaf (leaf_set_fuzziness deg) e]).
+      { apply (transparent_case (Fuzzy m t deg impl) t cx _ (leaf_set_fuzziness deg) [MFuzzy deg] its Hw Hnf); [reflexivity| | |].
+      + intros l _. apply good_fuzz.
+      + intros ms F HF l l' Hl. rewrite apply_mods_snoc. apply HF. apply sim_fuzz. exact Hl.
+      + intros ms. unfold D. rewrite noname_propagate. reflexivity.
+        }
+      destruct Hres as (e & -> & Hres). simpl in Hv. inversion Hv; subst items. exact Hres.
+    - (* Proximity *)
+      simpl in Hv. child_visit Hv Hw its. inversion HS as [|? ? (HSc & Hsc & Hbc) _]; subst.
+      pose proof (proj1 (HSc Hsc Hbc) _ _ Hw) as Hnf.
+      destruct (ctx_is_analyzed cfg cx) eqn:Ha.
+      + assert (Hres : exists e, its = [e] /\
+                    NF (Proximity m t deg impl) cx [on_leaf (leaf_set_slop (dec_of_Z deg)) e]).
+        { apply (transparent_case (Proximity m t deg impl) t cx _ (leaf_set_slop (dec_of_Z deg))
+                    [MSlop (dec_of_Z deg)] its Hw Hnf); [reflexivity| | |].
+        * intros l Hl. rewrite good_slop. exact Hl.
+        * intros ms F HF l l' Hl. rewrite apply_mods_snoc. apply HF. apply sim_slop. exact Hl.
+        * intros ms. unfold D. rewrite noname_propagate. simpl den_at.
+          change (ctx_is_analyzed cfg (noname cx)) with (ctx_is_analyzed cfg cx). rewrite Ha. reflexivity.
+          }
+        destruct Hres as (e & -> & Hres). simpl in Hv. inversion Hv; subst items. exact Hres.
+      + assert (Hres : exists e, its = [e] /\
+                    NF (Proximity m t deg impl) cx [on_leaf (leaf_set_fuzziness (dec_of_Z deg)) e]).
+        { apply (transparent_case (Proximity m t deg impl) t cx _ (leaf_set_fuzziness (dec_of_Z deg))
+                    [MFuzzy (dec_of_Z deg)] its Hw Hnf); [reflexivity| | |].
+        * intros l _. apply good_fuzz.
+        * intros ms F HF l l' Hl. rewrite apply_mods_snoc. apply HF. apply sim_fuzz. exact Hl.
+        * intros ms. unfold D. rewrite noname_propagate. simpl den_at.
+          change (ctx_is_analyzed cfg (noname cx)) with (ctx_is_analyzed cfg cx). rewrite Ha. reflexivity.
+          }
+        destruct Hres as (e & -> & Hres). simpl in Hv. inversion Hv; subst items. exact Hres.
+    - (* Boost *)
+      simpl in Hv. child_visit Hv Hw its. inversion HS as [|? ? (HSc & Hsc & Hbc) _]; subst.
+      pose proof (proj1 (HSc Hsc Hbc) _ _ Hw) as Hnf.
+      assert (Hres : exists e, its = [e] /\ NF (Boost m t force impl) cx [on_leaf (leaf_set_boost force) e]).
+      { apply (transparent_case (Boost m t force impl) t cx _ (leaf_set_boost force) [] its Hw Hnf); [reflexivity| | |].
+      + intros l Hl. rewrite good_boost. exact Hl.
+      + intros ms F HF l l' Hl. rewrite app_nil_r. apply HF.
+        eapply leaf_sim_trans; [apply sim_boost|exact Hl].
+      + intros ms. rewrite app_nil_r. unfold D. rewrite noname_propagate. reflexivity.
+        }
+      destruct Hres as (e & -> & Hres). simpl in Hv. inversion Hv; subst items. exact Hres.
+    - (* And *)
+      ops_visit Hv Hw its. simpl in Hv. inversion Hv; subst items.
+      apply (conj_item (Op KAnd m ops) cx its); try reflexivity. apply Hflat; [reflexivity|exact Hw].
+    - (* Or *)
+      ops_visit Hv Hw its. simpl in Hv. inversion Hv; subst items.
+      apply (disj_item (Op KOr m ops) cx its); try reflexivity. apply Hflat; [reflexivity|exact Hw].
+    - (* Unknown *)
+      ops_visit Hv Hw its. destruct (c_default_operator cfg) eqn:Hop; simpl in Hv; inversion Hv; subst items.
+      + apply (disj_item (Op KUnknown m ops) cx its); try (simpl; rewrite Hop; reflexivity); try (intros ms; unfold D; simpl; rewrite Hop; reflexivity).
+        apply Hflat; [simpl; rewrite Hop; reflexivity|exact Hw].
+      + apply (conj_item (Op KUnknown m ops) cx its); try (simpl; rewrite Hop; reflexivity); try (intros ms; unfold D; simpl; rewrite Hop; reflexivity).
+        apply Hflat; [simpl; rewrite Hop; reflexivity|exact Hw].
+      + apply (conj_item (Op KUnknown m ops) cx its); try (simpl; rewrite Hop; reflexivity); try (intros ms; unfold D; simpl; rewrite Hop; reflexivity).
+        apply Hflat; [simpl; rewrite Hop; reflexivity|exact Hw].
+    - (* Bool *)
+      ops_visit Hv Hw its. simpl in Hv. inversion Hv; subst items.
+      simpl in Hb. apply andb_prop in Hb as [_ Hok].
+      assert (Hnb : forall c, In c ops -> cls_eqb (cls_of c) CBoolOperation = false).
+      { intros c Hin. rewrite forallb_forall in Hok. specialize (Hok c Hin).
+        destruct c as [[]| |[]| | | | |[]|[]|[]|]; try reflexivity. discriminate Hok. }
+      destruct (walk_ops _ _ _ _ HS (fun c Hin He => ltac:(rewrite (Hnb c Hin) in He; discriminate He)) Hw)
+        as [parts [-> HF]].
+      pose proof (forall2_nf _ _ _ _ Hnb HF) as HF'.
+      destruct (parts_good _ _ _ _ HF) as [Hg Hne].
+      exists (EOp EKBool (concat parts)). split; [reflexivity|]. split; [exact Hg|].
+      split; [apply supported_op_length in Hs; destruct (concat parts);
+              [exfalso; apply Hne; [destruct ops; [simpl in Hs; lia|discriminate]|reflexivity]|reflexivity]|].
+      split; [reflexivity|]. intros ms F _. unfold EV. simpl on_leaf. unfold ev. simpl eeval. fold ev.
+      pose proof (bool_sem _ _ _ HF' Hok) as Hbs. cbv zeta in Hbs.
+      destruct (eparts ev (concat parts)) as [[mm ss] nn]. destruct Hbs as (J1 & J2 & J3 & J4).
+      unfold D in *. rewrite noname_propagate in *. simpl den_at. unfold opt in *.
+      rewrite <- J1, <- J2, <- J3, <- J4. unfold bool_matches.
+      destruct mm, ss; simpl; rewrite ?andb_true_r, ?orb_true_r; reflexivity.
+    - (* Plus *)
+      ops_visit Hv Hw its. simpl in Hv. inversion Hv; subst items.
+      apply (conj_item (Unary KPlus m t) cx its); try reflexivity. apply Hflat; [reflexivity|exact Hw].
+    - (* Not *)
+      simpl in Hv. child_visit Hv Hw its. inversion HS as [|? ? (HSc & Hsc & Hbc) _]; subst.
+      destruct (proj1 (HSc Hsc Hbc) _ _ Hw) as (e & -> & Hg & Hne & Hk & Hev).
+      simpl in Hv. inversion Hv; subst items. apply (neg_item (Unary KNot m t) t cx e); auto.
+    - (* Prohibit *)
+      simpl in Hv. child_visit Hv Hw its. inversion HS as [|? ? (HSc & Hsc & Hbc) _]; subst.
+      destruct (proj1 (HSc Hsc Hbc) _ _ Hw) as (e & -> & Hg & Hne & Hk & Hev).
+      simpl in Hv. inversion Hv; subst items. apply (neg_item (Unary KProhibit m t) t cx e); auto.
+  Qed.
+End Main.
+
+Lemma no_nested_code cfg : nested_paths cfg = [] -> ev_nested_prefixes (mk_env cfg) = [].
+Proof.
+  unfold nested_paths. intros H. assert (Hd : declared_nested cfg = []).
+  { destruct (declared_nested cfg) as [|p l]; [reflexivity|]. simpl in H. discriminate H. }
+  unfold declared_nested in Hd. simpl. rewrite Hd. reflexivity.
+Qed.
+
+(* the boolean skeleton: without nested fields and without F6, the query the builder returns matches
+   exactly the documents the tree denotes *)
+Lemma build_sem cfg t j :
+  supported t = true -> wf_config cfg = true -> sem_config cfg = true ->
+  nested_paths cfg = [] -> bool_operands_plain cfg t = true ->
+  build cfg t = ROk j -> forall d, es_matches cfg j d = den cfg t d.
+Proof.
+  intros Hs Hwf Hsem Hnn Hb Hbuild d. pose proof (no_nested_code cfg Hnn) as Hnp.
+  unfold build, build_etree, build_etree_env in Hbuild.
+  destruct (check_nested (ev_chk (mk_env cfg)) t); [discriminate Hbuild|].
+  destruct (visit cfg (mk_env cfg) t None ctx0) as [items|] eqn:Hv; [|discriminate Hbuild].
+  destruct (proj1 (visit_sem cfg d Hnp t Hs Hb) ctx0 items Hv) as (e & -> & Hg & _ & _ & Hev).
+  unfold es_matches, den. rewrite Hnn.
+  rewrite (es_eval_ejson cfg [] Hsem e j [] d Hg Hbuild).
+  specialize (Hev [] (fun l => l) (fsim_id_id)). unfold EV, ev in Hev. rewrite on_leaf_id in Hev.
+  exact Hev.
+Qed.
